@@ -193,3 +193,29 @@ CHECKS["C02"] = dict(
                  "access/lock decision functions are stand-ins; time.Now is a fixed instant inside the request's validity window"],
     outside=["aws/signer/v4", "date-window and scope arithmetic (H02b: not built)", "admin API", "body content beyond 2 bytes in the chain harness"],
 )
+
+_FS = dict(pkgs=["./backend/posix"], redirects="spec/redirects_fs.json", pkgname="posix")
+CHECKS["C06"] = dict(
+    explanation="posix.PutObject (real code incl. tmpfile.Write/falloc/link, HashReader, io.Copy) on the file-system model: symbolic body bytes, an "
+                "arbitrary declared length, an arbitrary declared Content-MD5, new and existing key, both temp-file strategies, EOF delivered with or "
+                "after the last bytes. Oracle: commit implies digest match and declared = received = stored size and stored bytes = received bytes; "
+                "otherwise the key keeps its previous state.",
+    harnesses=[
+        dict(name="H06-putobject", entry="backend/posix.VfUploadIntegrity", reach=["committed", "refused"], **_FS),
+    ],
+    assumptions=["file-system model (harness/tree/internal/zzvfos): atomic namespace operations, xattrs as per-inode map, no spontaneous I/O errors",
+                 "MD5 is an uninterpreted function"],
+    outside=["bodies longer than the byte bound", "UploadPart (same code shape; not yet a separate harness)", "checksum (x-amz-checksum-*) variants", "chunk/trailer signatures (C12)"],
+)
+
+CHECKS["C01"] = dict(
+    explanation="posix PutObject -> GetObject/HeadObject/ListObjectsV2 through a fresh Posix value (another gateway process) on the file-system model: "
+                "symbolic body bytes, content type and user metadata; keys incl. nested and URL-reserved characters; both temp-file strategies. "
+                "Oracle: bytes, length, ETag = quoted hex MD5 (uninterpreted), content type and metadata read back; HEAD and listing agree with GET.",
+    harnesses=[
+        dict(name="H01-putget", entry="backend/posix.VfPutGet", reach=["read-back"], **_FS),
+        dict(name="H01-two-processes", entry="backend/posix.VfOverwriteAcrossProcesses", reach=["checked"], **_FS),
+    ],
+    assumptions=["file-system model as for C06", "MD5 is an uninterpreted function"],
+    outside=["multipart and copy uploads (not built yet)", "sidecar metadata store", "HTTP header plumbing in the controllers", "bodies beyond the byte bound"],
+)
